@@ -17,7 +17,7 @@ CHECKS = {
             "Decides the code-shape content of the property: (1) no to_dense/densify/eye/kron/block_diag/diag materialiser is reachable from the product "
             "methods of the 10 structured kinds; (2) for every required (function, kind) pair, every admitted algorithm class, with and without the optional "
             "algorithm argument, the selected rule neither materialises its own operator argument nor forwards it to a selection that does (least fixpoint); "
-            "(3) omitting an optional argument selects the same rule as passing its default.",
+            "(3) omitting an optional argument selects the same rule as passing its default. The generic densifier multiplies into an identity of the smaller dimension on the branch taken because that dimension is (a multiple) smaller.",
             "Trusted: resolver model, materialiser set and required pairs in sa/oracle_structural.py. Peak memory as a number and constant factors are not decided.", "4/C19"),
     "C17": ("typestate analysis of global-RNG use (save/perturb/restore bracket on every path), def-use chains of keys, bounded-loop certificate, sibling cross-check of backends",
             "Full for determinism and global state: every reference to numpy.random / random / torch RNG APIs in cola/ (three backends, including the two the "
@@ -25,14 +25,14 @@ CHECKS = {
             "randn must derive from a parameter, PRNGKey(constant) or next_key; loop-carried keys must advance; PRNGKey/next_key must depend on their argument; "
             "the Hutchinson loop has a cap conjunct and a +1 counter. Of unbiasedness only three necessary conditions are decided: probe/estimator conjugation agreement, that "
             "the estimator reads the sign of the offset k (not only abs(k)), and that on every path of the loop body the multiplier of (A @ z) is the probe block z itself or a shift / mask of it. "
-            "The options given to Auto (tolerance, iteration cap, key) reach the estimator it constructs. No function writes a new key into an object passed by its caller.",
+            "The options given to Auto (tolerance, iteration cap, key) reach the estimator it constructs. No function writes a new key into an object passed by its caller. The cap comparison is strict exactly when the counter starts at 0.",
             "Statistical unbiasedness, variance and the Rademacher-exactness claim are not decided. Exceptional exits inside a bracket are ignored.", "4/C17"),
     "C18": ("ownership / effect analysis: flow-sensitive origins of every in-place write target, parameter-write and return-alias summaries to a fixpoint over the resolved call graph",
             "Full for non-mutation: every in-place write site in cola/ (update_array on numpy/torch, augmented assignment, subscript/attribute store, out=, mutating methods, "
             "setattr) is classified by where its target's storage comes from; no public entry point may carry a parameter-write summary; products are treated as possibly "
             "returning their operand (Identity._matmat does); attribute stores and mutating calls on representation-relevant operator attributes outside constructors are "
             "violations; the annotation wrapper must build a new object and a new set. Flatten/unflatten: writer/reader encoding agreement is decided; of the history clause only that "
-            "the per-class leaf table is copied for every class the metaclass creates.",
+            "the per-class leaf table is copied for every class the metaclass creates. The per-attribute leaf/static classification is a function of the value's kind: it is evaluated for an operator without array leaves and must say `dynamic`.",
             "Trusted: backend freshness table in sa/own.py (XNP_FRESH / XNP_VIEW), the named exclusions (module-namespace plumbing, torch ctx, the update_array primitives). "
             "The registry-history clause of flatten depends on runtime values and is not decided.", "4/C18"),
     "C05": ("abstract interpretation of the get_annotations rules over operator descriptors against an oracle of preserved annotations; provenance dataflow (ORTHO/COLS) at annotation output sites",
@@ -40,7 +40,7 @@ CHECKS = {
             "isinstance/issubclass against parametric patterns, identity tests) on every composite with up to 3-4 parts x all 16 raw annotation subsets per part; a claimed annotation "
             "that linear algebra does not allow is reported with the witness operator. Refute-only for output sites: Unitary/Stiefel(...) inside cola/ is refuted when the wrapped "
             "value provably has a caller-controlled column count or holds general eigenvectors, proved when it is a (column selection of a) unitary factor, undecided otherwise. Index "
-            "objects of a Sliced that are materialised as arange(N)[s] must take N from the parent's shape on the same axis.",
+            "objects of a Sliced that are materialised as arange(N)[s] must take N from the parent's shape on the same axis. Krylov svd rules take the Gram matrix of the shorter side on every branch (the other one is singular, its back-substituted factor is not orthonormal); index-array equality in the Sliced rule is interpreted for `.all()` and `.any()`.",
             "Trusted: oracle `allowed` in sa/annot.py (one line per combinator with its reason); backend provenance table in sa/prov.py (eigh/svd/qr/eig). Numerical orthogonality of "
             "Krylov bases and PSD-ness of user data are not decided.", "4/C05"),
     "C02": ("term rewriting (abstract interpretation of product methods and transpose/adjoint rules into a free algebra over T, C, inv, products, sums, factor families; normal-form comparison)",
@@ -54,7 +54,7 @@ CHECKS = {
             "Decides the algebraic meaning of every Python operator overload of LinearOperator (A+x, A-x, -A, c*A, A/c, c/A, A@B, B@A, the A+0 shortcut) and of every rewrite rule "
             "(factor order for Product/Kronecker/KronSum flattening, multiset for Sum, identity dropping, scalar merging, diagonal Kronecker fusion in row-major order, scalar operator "
             "placed on the side whose size it has), that block_diag assembles its operands in order without multiplying nested multiplicities, that Product/Sum constructors and @ validate the contracted dimensions before building, and that the dtype of *Ms composites is a "
-            "reduction over all parts, and that the scalar operator representing c in c*A is typed by something c influences (refuted on this tree for three rules: known findings).",
+            "reduction over all parts, and that the scalar operator representing c in c*A is typed by something c influences (refuted on this tree for three rules: known findings). The contracted-dimension check of `@` dominates the operator-operand exit (or every rule of dot() builds a validating Product).",
             "The value of the represented matrix and error messages are not decided; totality/unambiguity of the combinators is C04.", "4/C03"),
     "C06": ("term rewriting of every inv / pinv rule against inv(A) under the operand kind's defining equation and the factorisation hypotheses; decision tables of the Auto rules",
             "Decides the algebraic shape of every dispatch path of inv/pinv/solve: factorisation base cases (inv(H(L))*inv(L) for A = L*H(L); inv(U)*inv(L)*inv(P) for A = P*L*U), "
@@ -118,7 +118,7 @@ CHECKS = {
             "division guards any degree, products add, sums need equal degrees) additionally decides that the stopping test compares quantities of equal degree (a relative tolerance), "
             "that the returned solution has degree 1 in b, and that the counter is compared with the caller's max_iters itself, not a derived value. The monitored loop runner must hand "
             "the caller's condition through unchanged on every exit of its wrapper (no stopping criterion of its own), and no reciprocal of a division guard below the smallest normal "
-            "float32 is formed (0 * inf for a zero right-hand side in single precision).",
+            "float32 is formed (0 * inf for a zero right-hand side in single precision). A literal that a magnitude is compared with to be treated as zero must not exceed the smallest normal single-precision number.",
             "Krylov optimality of the iterate, the recurrences themselves and preconditioner independence are numerical and NOT decided (a formula match of the CG recurrences was "
             "rejected: an equivalent reformulation would be a false alarm).", "4/C12"),
     "C14": ("bounded-loop certificate, constructor-argument identity, sign provenance of written entries, sesquilinear-form convention of the Gram-Schmidt step, def-use pairing",
@@ -127,7 +127,7 @@ CHECKS = {
             "coefficient conjugates the basis it is later multiplied with; lanczos_eigs sorts ascending and permutes values and vector columns by the same index; diagonal, off-diagonal "
             "and Q are trimmed to N, N-1, N for one size N, and N counts the steps run (final loop counter minus its initial value; the loop runner's 'iterations' counts "
             "condition evaluations, one more); the work buffers of init_lanczos are typed by the operator's dtype at every call site; every clip / maximum bound inside the "
-            "factorisation loop has the degree of homogeneity (in the scale of A) of the quantity it guards; the loop condition folds to False at an exact breakdown.",
+            "factorisation loop has the degree of homogeneity (in the scale of A) of the quantity it guards; the loop condition folds to False at an exact breakdown. The stopping test continues while ANY column is above its threshold (polarity of comparison and reduction); no in-place write on a value that may be the operator product or the loop state (products may return their operand); Ritz values are in ascending order by abstract interpretation over spectrum orders, helpers followed.",
             "Orthonormality, the three-term recurrence, early termination and A Q - Q T are numerical and not decided.", "4/C14"),
     "C15": ("bounded-loop certificate, allocation check of the work buffers, sign provenance, dependence of the normalisation floor on the tolerance, projection convention",
             "Thin structural claim: at most min(max_iters, n) steps; H and Q are zero-initialised (never empty) and sized by the requested cap, which is why extra rows/columns stay zero; "
@@ -135,7 +135,7 @@ CHECKS = {
             "into a unit column with a zero H column); modified Gram-Schmidt conjugates the basis; the first column is the normalised start vector; arnoldi_eigs drops the last row of H "
             "and last column of Q together; the work buffers of init_arnoldi are typed by the operator's dtype at every call site; every clip / maximum bound inside the factorisation "
             "loop has the degree of homogeneity (in the scale of A) of the quantity it guards (refuted on this tree: known finding); the loop condition folds to False at an exact "
-            "breakdown; arnoldi_eigs applies no data-dependent mask to the Ritz values.",
+            "breakdown; arnoldi_eigs applies no data-dependent mask to the Ritz values. The stopping test continues while ANY column is above its threshold; no in-place write on a value that may alias the basis; the driver clips the cap before it allocates and hands allocator and loop the same cap.",
             "The Arnoldi relation, orthonormality and breakdown behaviour as numbers are not decided.", "4/C15"),
     "C01": ("dtype-source dataflow over every _matmat/_rmatmat, dependence of composite metadata, role checks of dimensions on the generic paths and the Kronecker / KronSum / BlockDiag contractions",
             "Partial by construction (the value of a product is out of reach): decides that no buffer typed by one side receives data of the other side in place, that the result dtype of "
@@ -144,7 +144,7 @@ CHECKS = {
             "result has the operator's row count, that every axis moved to the front is moved back by the inverse move, that the pieces a BlockDiag cuts its operand into are sized "
             "by the blocks' column counts and the pieces of its result by their row counts (AXIS-TAINT: which axes of the parts' shapes an offset is computed from, through helpers and running totals), "
             "that no product method converts its operand to a dtype that ignores it, that a blocked product loop covers the whole range (ceil count, or floor count with the last block extended), "
-            "and that a to_dense override returns the matrix the class's own product applies (TERM).",
+            "and that a to_dense override returns the matrix the class's own product applies (TERM). The block-diagonal product is evaluated per block as a (TERM, symbolic shape) pair: every `@` contracts equal dimensions for any multiplicity and for multiplicity one the block of the result is M·x.",
             "Values of products (Kronecker reshaping, BlockDiag slicing, Tridiagonal shifts), nesting depth and tolerances are NOT decided. Opaque methods: FFT, Jacobian, Hessian, "
             "ConvolveND, the Krylov unary operators, user-supplied matmat.", "4/C01"),
     "C20": ("dimension-role, attribute-existence, dtype-source and guard/use agreement checks on LinearOperator.__getitem__ and Sliced; one known-bad-idiom rule",
